@@ -6,8 +6,11 @@ from .props.common import py_head_end, TCHAR, URICH, REASONCH, VALUECH, WS, entr
 
 
 def profile_for(variant, release=False):
-    swar = variant.startswith(('swar', 'nostd', 'i686'))
-    return ('release' if release else 'dev') + ('-swar' if swar else '')
+    base = 'release' if release else 'dev'
+    if variant.startswith(('swar', 'nostd', 'i686', 'a64')): return base + '-swar'     # a64/i686 cannot run here: nearest native build
+    if 'sse42' in variant: return base + '-sse42'
+    if 'avx2' in variant: return base + '-avx2'
+    return base
 
 
 def run_native(items, profile='dev'):
@@ -244,6 +247,19 @@ def rel_gate(v):
             elif ia['status'] == 'C':
                 hb = [[[h[0][0] + pl, h[0][1]], ([h[1][0] + pl, h[1][1]] if len(h[1]) == 2 else h[1])] for h in ib['headers']]
                 if ia['n'] != ib['n'] + pl or ia['headers'] != hb: bad = f"message n={ia['n']} {ia['headers']} vs parse_headers n={ib['n']}+{pl} {hb}"
+            if bad: confirmed = True; notes.append(f'{prof}: {bad}')
+    elif rel == 'caplaw':
+        entry = en(kind, v['api']); c = v['cap']
+        for prof in profs:
+            a, b = run_native([(entry, v['flags'], c, data.hex()), (entry, v['flags'], 3, data.hex())], prof)
+            ia, ib = norm_impl(a['impl'], kind), norm_impl(b['impl'], kind); natives[prof] = [ia, ib]
+            bad = None
+            if ia['status'] == 'E:TooManyHeaders':
+                stored3 = sum(1 for h in b['impl'].get('headers', []) if not isinstance(h, str))
+                if ib['status'] != 'E:TooManyHeaders' and stored3 <= c: bad = f"TooManyHeaders with capacity {c} but only {stored3} line(s) complete with capacity 3 ({ib['status']})"
+            else:
+                if (ia['status'], ia['n']) != (ib['status'], ib['n']): bad = f"capacity {c}: {ia['status']} n={ia['n']}; capacity 3: {ib['status']} n={ib['n']}"
+                elif ia['status'] == 'C' and ia['headers'] != ib['headers']: bad = 'headers differ between capacities'
             if bad: confirmed = True; notes.append(f'{prof}: {bad}')
     elif rel == 'completable':
         entry = en(kind, v['api'])
